@@ -14,6 +14,12 @@ for i in ids:
     if i not in props or props[i].get('claimed', True) is False:
         continue
     p = props[i]
+    tech = p.get('technique', 'contract-based deductive verification: WP/VC generation over go/ssa of the real code, contracts in guarded zz_verif_contracts.go files, obligations discharged by z3/cvc5')
+    note = p['level_note']
+    bd = p.get('bounded') or []
+    if bd:
+        tech += '; plus bounded stand-ins (labelled bounded, never counted as proved) for clauses the solvers do not decide: exhaustive enumeration of the real code through go test -overlay against an oracle written from the property statement (' + ', '.join(b['name'] for b in bd) + ')'
+        note += ' BOUNDED stand-ins (not proofs; bound stated per harness in the evidence file under coverage.bounded): ' + '; '.join(f"{b['name']}: {b['stands_for']} [bound: {b['bound']}]" for b in bd)
     checks.append({
         'property_id': i,
         'quick_cmd': f'./check {i} quick',
@@ -22,8 +28,8 @@ for i in ids:
         'replay_cmd_template': './check-replay {path}',
         'engine': 'gcv',
         'level_claimed': {'category': p.get('level', 'proof'), 'text': p['level_text'], 'design_ref': f'DESIGN.md section 7 ({i})'},
-        'level_note': p['level_note'],
-        'technique': p.get('technique', 'contract-based deductive verification: WP/VC generation over go/ssa of the real code, contracts in guarded zz_verif_contracts.go files, obligations discharged by z3/cvc5'),
+        'level_note': note,
+        'technique': tech,
     })
 not_app = []
 for i in ids:
